@@ -264,7 +264,13 @@ POSITIVE = {"igamma", "igammac", "igamma_grad_a", "random_gamma_grad", "betainc"
 BOUNDED_KINDS = {"while_loop": ["own"],        # termination depends on the value (e.g. `while v < 5: v += 2x`)
                  "fori_loop": ["own", "half", "unit"],
                  "arange": ["own", "half", "unit"], "linspace": ["own", "half", "unit"],   # output size = f(values)
-                 "Transformer": ["own"]}       # float-typed token ids: must index the vocabulary
+                 "Transformer": ["own"],       # float-typed token ids: must index the vocabulary
+                 "cholesky_update": ["own"]}   # the operand must be a valid Cholesky factor (positive diagonal)
+# linear-algebra components: a draw on which eager JAX itself produces a non-finite element (singular /
+# not positive definite input) is outside the callable's domain as a whole — one bad pivot contaminates
+# every element — and is not judged
+LINALG_PREFIXES = ("linalg_", "cholesky", "lu", "qr", "eig", "svd", "triangular_solve", "tridiagonal", "schur",
+                   "hessenberg", "householder", "ormqr", "polyfit")
 UNORDERED_OUTPUT = {"roots", "eig"}            # eigenvalues / roots are a set: compared after sorting
 # (testcase name, draw kind or "*") -> why this draw is not judged (documented in notes/C01.md)
 ORACLE_EXEMPT = {
@@ -685,6 +691,12 @@ def run_case(index: int, seed: int, kinds: list[str], symval: int = 2) -> dict:
         except Exception as e:
             d["status"] = "jax_error"          # the callable itself rejects the input: out of its domain
             d["error"] = f"{type(e).__name__}: {e}"[:200]
+            res["draws"].append(d)
+            continue
+        if str(comp or "").startswith(LINALG_PREFIXES) and any(
+                (np.issubdtype(np.asarray(v).dtype, np.floating) or np.issubdtype(np.asarray(v).dtype, np.complexfloating))
+                and not np.isfinite(np.asarray(v)).all() for v in j_main):
+            d["status"] = "jax_nonfinite_linalg"      # singular input: out of the callable's domain
             res["draws"].append(d)
             continue
         try:
